@@ -1054,6 +1054,29 @@ fn hostile_invoice_with_the_id_of_a_finalized_one(w: &mut World, rep: &mut Repor
 	cleanup(w);
 }
 
+/// The payer's half of an invoice, built with the public `Slate` functions only (what a counterparty running other
+/// software can produce): one input `input` of the keychain `kc`, one change output under `change_key`, the fee field
+/// `FeeFields::new(shift, fee)`, signed consistently.
+pub fn hand_built_invoice_reply(kc: &ExtKeychain, invoice: &Slate, input: &libwallet::OutputData, shift: u64, fee: u64, amount: u64, change_key: &grin_keychain::Identifier) -> Result<Slate, libwallet::Error> {
+	let mut i2 = invoice.clone();
+	let change = input.value.checked_sub(amount + fee).ok_or_else(|| libwallet::Error::GenericError("coin too small".into()))?;
+	i2.tx = Some(Slate::empty_transaction());
+	i2.fee_fields = FeeFields::new(shift, fee).map_err(|e| libwallet::Error::GenericError(format!("{:?}", e)))?;
+	let elems = vec![if input.is_coinbase { build::coinbase_input(input.value, input.key_id.clone()) } else { build::input(input.value, input.key_id.clone()) }, build::output(change, change_key.clone())];
+	i2.add_transaction_elements(kc, &ProofBuilder::new(kc), elems)?;
+	let mut ctx = Context::new(kc.secp(), &input.root_key_id, false, false);
+	ctx.add_input(&input.key_id, &input.mmr_index, input.value);
+	ctx.add_output(change_key, &None, change);
+	i2.fill_round_1(kc, &mut ctx)?;
+	ctx.initial_sec_key = ctx.sec_key.clone();
+	i2.fill_round_2(kc, &ctx.sec_key, &ctx.sec_nonce)?;
+	i2.adjust_offset(kc, &ctx)?;
+	i2.tx_or_err_mut()?.offset = i2.offset.clone();
+	i2.amount = 0;
+	i2.state = SlateState::Invoice2;
+	Ok(i2)
+}
+
 /// Invoice flow with a payer that runs other software: the invoicer finalizes whatever half the payer hands back, and
 /// the payer chooses the fee. The half is built by hand with the public `Slate` functions over one of wallet 0's
 /// coins (what a counterparty with its own funds can do), with a fee field whose low 40 bits and *shift* (bits
@@ -1092,27 +1115,10 @@ fn hostile_invoice_payer(w: &mut World, rep: &mut Report, rng: &mut Rng, prop: &
 			}
 		};
 		used.insert(input.key_id.to_hex());
-		let built = (|| -> Result<(Slate, Slate), libwallet::Error> {
-			let i1 = w.wallets[1].issue_invoice(IssueInvoiceTxArgs { amount, ..Default::default() })?;
-			let mut i2 = i1.clone();
-			let change = input.value - amount - fee;
+		let built = w.wallets[1].issue_invoice(IssueInvoiceTxArgs { amount, ..Default::default() }).and_then(|i1| {
 			let change_key = ExtKeychain::derive_key_id(3, 0, 0, 3_000_000 + (rng.next() as u32 % 1_000_000), 0);
-			i2.tx = Some(Slate::empty_transaction());
-			i2.fee_fields = FeeFields::new(shift, fee).map_err(|e| libwallet::Error::GenericError(format!("{:?}", e)))?;
-			let elems = vec![if input.is_coinbase { build::coinbase_input(input.value, input.key_id.clone()) } else { build::input(input.value, input.key_id.clone()) }, build::output(change, change_key.clone())];
-			i2.add_transaction_elements(&kc0, &ProofBuilder::new(&kc0), elems)?;
-			let mut ctx = Context::new(kc0.secp(), &input.root_key_id, false, false);
-			ctx.add_input(&input.key_id, &input.mmr_index, input.value);
-			ctx.add_output(&change_key, &None, change);
-			i2.fill_round_1(&kc0, &mut ctx)?;
-			ctx.initial_sec_key = ctx.sec_key.clone();
-			i2.fill_round_2(&kc0, &ctx.sec_key, &ctx.sec_nonce)?;
-			i2.adjust_offset(&kc0, &ctx)?;
-			i2.tx_or_err_mut()?.offset = i2.offset.clone();
-			i2.amount = 0;
-			i2.state = SlateState::Invoice2;
-			Ok((i1, i2))
-		})();
+			hand_built_invoice_reply(&kc0, &i1, &input, shift, fee, amount, &change_key).map(|i2| (i1, i2))
+		});
 		let (i1, i2) = match built {
 			Ok(x) => x,
 			Err(e) => {
